@@ -127,7 +127,7 @@ func (t *UnicastUDPTransport) sendFrame(frame []byte) {
 func (t *UnicastUDPTransport) runReceive() {
 	defer t.Close()
 
-	err := readTlvStream(t.conn, func(b []byte) {
+	err := readTlvDatagrams(t.conn, func(b []byte) {
 		t.nInBytes += uint64(len(b))
 		*t.expirationTime = time.Now().Add(udpLifetime)
 		t.linkService.handleIncomingFrame(b)
